@@ -119,4 +119,14 @@ def deactivateOp (s : State) (tid sender : Nat) : State × Err :=
     else if !t.isActive then (s, .alreadyInactive)
     else (deactivateTunnel s tid, .ok)
 
+/-! ### genesis: the deposit clauses of `types.ValidateGenesis` -/
+
+/-- every deposit record names an existing tunnel, no (tunnel, depositor) pair occurs twice, and every tunnel's total deposit
+    equals the sum of its deposit records in every denom (amounts are vectors over the `nd` denoms in play) -/
+def genesisDepositsOk (nd : Nat) (tunnels : List (Nat × List Nat)) (deps : List (Nat × Nat × List Nat)) : Bool :=
+  deps.all (fun d => tunnels.any (·.1 == d.1)) &&
+  decide ((deps.map fun d => (d.1, d.2.1)).Nodup) &&
+  tunnels.all fun t => (List.range nd).all fun k =>
+    t.2.getD k 0 == (deps.filter (·.1 == t.1)).foldl (fun acc d => acc + d.2.2.getD k 0) 0
+
 end BandVerif.TunnelDeposit
